@@ -18,12 +18,12 @@ MANIFEST = {
 }
 
 INVS = ("TypeOK InitOnceOutsideScopes RequireBeforeExecute FirstErrorStopsAll ScopesClosedAtEnd "
-        "CondReinitAndTestBeforePass BodyOnlyAfterTrueTest RootAccounting ScopeEntryFresh")
+        "CondReinitAndTestBeforePass BodyOnlyAfterTrueTest RootAccounting ScopeEntryFresh SeedStaysInside")
 JAVA = "-Xss512m"
 
 
 def cfg_mc(n, l, f, export):
-    return ("SPECIFICATION ESpec\nCONSTANTS\n  LeafVariants = {\"plain\", \"ins0\", \"req0\"}\n  MaxStmts = %d\n  MaxScript = %d\n  MaxFault = %d\nINVARIANT %s\n"
+    return ("SPECIFICATION ESpec\nCONSTANTS\n  LeafVariants = {\"plain\", \"ins0\", \"req0\", \"seed\"}\n  MaxStmts = %d\n  MaxScript = %d\n  MaxFault = %d\nINVARIANT %s\n"
             "CHECK_DEADLOCK FALSE\n" % (n, l, f, "PrintCase" if export else INVS))
 
 
@@ -64,6 +64,9 @@ def export_cases(ctx, mc_out, name, limit=None, stride=1):
                     continue
                 case = json.loads(json.loads(line.rstrip("\n")[len(pre):-2]))
                 case["run"] = n
+                # every third case starts from a caller state that already holds a pass counter with a stale value
+                if n % 3 == 2:
+                    case["rootit"] = 3
                 g.write(json.dumps(case) + "\n")
                 n += 1
                 if limit and n >= limit:
